@@ -866,6 +866,9 @@ static std::string exec_line(World*& W, long lineno, const std::string& line) {
         std::string ws = t.word();
         long lo = t.l(), hi = t.l();
         std::vector<long> windows;
+        // a leading 'e' ("e2,2,3"): the vertex is constructed and compute()d once with the first window size while its four
+        // Green's functions are prepared but not yet computed; they are computed afterwards and the window sequence starts over
+        bool early = !ws.empty() && ws[0] == 'e'; if (early) ws = ws.substr(1);
         { std::istringstream wss(ws); std::string tok; while (std::getline(wss, tok, ',')) windows.push_back(strtol(tok.c_str(), 0, 10)); }
         std::unique_ptr<TwoParticleGF> X_p(new TwoParticleGF(W->s(), W->h(), W->c_of(src, i), W->c_of(src, j), W->cdag_of(src, k), W->cdag_of(src, l), W->dm())); TwoParticleGF& X = *X_p;
         X.prepare(); X.compute(false, std::vector<freq_tuple>(), W->comm);
@@ -873,8 +876,10 @@ static std::string exec_line(World*& W, long lineno, const std::string& line) {
         std::unique_ptr<GreensFunction> G24_p(new GreensFunction(W->s(), W->h(), W->c_of(src, j), W->cdag_of(src, l), W->dm())); GreensFunction& G24 = *G24_p;
         std::unique_ptr<GreensFunction> G14_p(new GreensFunction(W->s(), W->h(), W->c_of(src, i), W->cdag_of(src, l), W->dm())); GreensFunction& G14 = *G14_p;
         std::unique_ptr<GreensFunction> G23_p(new GreensFunction(W->s(), W->h(), W->c_of(src, j), W->cdag_of(src, k), W->dm())); GreensFunction& G23 = *G23_p;
-        G13.prepare(); G13.compute(); G24.prepare(); G24.compute(); G14.prepare(); G14.compute(); G23.prepare(); G23.compute();
+        G13.prepare(); G24.prepare(); G14.prepare(); G23.prepare();
+        if (!early) { G13.compute(); G24.compute(); G14.compute(); G23.compute(); }
         std::unique_ptr<Vertex4> V_p(new Vertex4(X, G13, G24, G14, G23)); Vertex4& V = *V_p;
+        if (early) { if (!windows.empty()) V.compute(windows[0]); G13.compute(); G24.compute(); G14.compute(); G23.compute(); }
         std::string steps = "[";
         for (size_t w = 0; w < windows.size(); w++) {
             V.compute(windows[w]);
